@@ -105,11 +105,15 @@ impl Prop for C08 {
             let mut files = vec![("p".to_string(), plain.clone()), ("kr".to_string(), kr.into_bytes())];
             if rng.chance(1, 2) || len == 50 { files.push(("c".into(), rng.bytes(len + 5000))); }
             let w = World { files, env: vec![("KESTREL_PASSWORD".into(), fx.alice.pw.into())], stdin: vec![] };
-            let obs = run_kestrel(&w, &sv(&["encrypt", "p", "-t", names[1], "-f", names[0], "-o", "c", "-k", "kr", "--env-pass"]));
-            let Some(f) = obs.file("c").cloned() else { o.oracle_fail = Some(("encrypt-succeeds".into(), obs.stderr)); return o; };
+            // who writes to whom, and where the ciphertext goes, is none of the file's business: some runs are self-addressed, some write to standard output
+            let seedn = getn(c, "seed"); let to = if seedn % 3 == 0 { names[0] } else { names[1] }; let to_stdout = seedn % 2 == 0;
+            let mut args = sv(&["encrypt", "p", "-t", to, "-f", names[0], "-k", "kr", "--env-pass"]); if !to_stdout { args.push("-o".into()); args.push("c".into()); }
+            let obs = run_kestrel(&w, &args);
+            let f = if to_stdout { if obs.exit != Some(0) { o.oracle_fail = Some(("encrypt-succeeds".into(), obs.stderr)); return o; } obs.stdout.clone() } else { let Some(f) = obs.file("c").cloned() else { o.oracle_fail = Some(("encrypt-succeeds".into(), obs.stderr)); return o; }; f };
+            o.tags.push(format!("cli {} {}", if to == names[0] { "self-addressed" } else { "to another key" }, if to_stdout { "stdout" } else { "-o" }));
             o.tags.push("cli".into()); o.nontrivial = Some(format!("cli/{}/{}", len, get(c, "seed")));
             o.impl_obs = format!("{}B ciphertext for {}B plaintext", f.len(), len);
-            if f.len() != 132 + 32 * len.div_ceil(65536).max(1) + len { o.oracle_fail = Some(("length-formula".into(), format!("CLI output is {} bytes for |P| = {}", f.len(), len))); return o; }
+            if f.len() != 132 + 32 * len.div_ceil(65536).max(1) + len { o.oracle_fail = Some(("length-formula".into(), format!("`kestrel {}`: the output is {} bytes for |P| = {} (starts with {})", args.join(" "), f.len(), len, hex(&f[..f.len().min(8)])))); return o; }
             let mut needles: Vec<(String, Vec<u8>)> = vec![];
             for n in names { needles.push((format!("keyring name {:?}", n), n.as_bytes().to_vec())); needles.push((format!("base64 of name {:?}", n), Base64::encode_to_string(n.as_bytes()).unwrap().into_bytes())); }
             for (who, id) in [("sender", &fx.alice), ("recipient", &fx.bob)] { needles.push((format!("{} public key (raw)", who), id.pk.clone())); needles.push((format!("{} public key (keyring encoding)", who), id.enc_pk.clone().into_bytes())); needles.push((format!("{} public key (hex)", who), hex(&id.pk).into_bytes())); needles.push((format!("{} public key (base64)", who), Base64::encode_to_string(&id.pk).unwrap().into_bytes())); }
